@@ -7,6 +7,7 @@
  * C type it stands for" (command "sizes") is data taken from the comments
  * and declarations of mptcore/types.h.
  */
+#include "seam.h"   /* allocation seam: mptcore/types/type_traits.c is compiled into this driver with malloc -> vf_malloc */
 #include "drv.h"
 
 #include <ctype.h>
@@ -19,6 +20,7 @@
 #include "event.h"
 #include "convert.h"
 #include "node.h"
+#include "message.h"
 
 static void drv_reset(void)
 {
@@ -66,6 +68,24 @@ static const struct fixed fixed_tab[] = {
 static int g_init(void *p, const void *q) { (void) p; (void) q; return 0; }
 static void g_fini(void *p) { (void) p; }
 
+/* memory denied to a registration: fail=k refuses the k-th allocation the library asks for during
+ * the call (0 = none).  The window is exactly the registration call. */
+static int g_oom;        /* the armed failure was consumed by the last registration */
+static long g_allocs;    /* allocations the last registration asked for (granted ones) */
+static void arm(const struct cmd *c)
+{
+	long k = (long) drv_int(c, "fail", 0);
+	vf_step();
+	vf_fail_after = k > 0 ? k - 1 : -1;
+}
+static void disarm(const struct cmd *c)
+{
+	long k = (long) drv_int(c, "fail", 0);
+	g_oom = k > 0 && vf_fail_after < 0;
+	g_allocs = vf_step_allocs;
+	vf_fail_after = -1;
+}
+
 static long long small(size_t v)
 {
 	return v > 0x3fffffff ? -1 : (long long) v;
@@ -98,7 +118,9 @@ static void answer_named(struct cmd *c, const MPT_STRUCT(named_traits) *e)
 		j_str("name", e->name ? e->name : "");
 		j_int("size", e->traits ? small(e->traits->size) : 0);
 	}
+	j_int("oom", g_oom);
 	drv_dbg();
+	j_int("allocs", g_allocs);
 	drv_end();
 }
 static void answer_id(struct cmd *c, int id)
@@ -117,7 +139,9 @@ static void answer_id(struct cmd *c, int id)
 		j_str("name", "");
 		j_int("size", t ? small(t->size) : 0);
 	}
+	j_int("oom", g_oom);
 	drv_dbg();
+	j_int("allocs", g_allocs);
 	drv_end();
 }
 static const char *name_arg(const struct cmd *c, const char *key)
@@ -171,24 +195,36 @@ static void drv_step(struct cmd *c)
 		j_int("metacap", MPT_ENUM(_TypeMetaPtrMax) - MPT_ENUM(_TypeMetaPtrBase) + 1);
 		j_int("genbase", MPT_ENUM(_TypeValueAdd));
 		j_int("gencap", MPT_ENUM(_TypeValueMax) - MPT_ENUM(_TypeValueAdd) + 1);
+		/* byte order bit of the transport format codes on this machine (message.h) */
+		j_int("fmtnative", MPT_MESGVAL(ByteOrderNative));
 		drv_dbg();
 		drv_end();
 	}
 	else if (!strcmp(a, "addbasic")) {
-		answer_id(c, mpt_type_basic_add(drv_uint(c, "size", 0)));
+		int r;
+		arm(c);
+		r = mpt_type_basic_add(drv_uint(c, "size", 0));
+		disarm(c);
+		answer_id(c, r);
 	}
 	else if (!strcmp(a, "addgeneric")) {
 		size_t size = drv_uint(c, "size", 0);
 		int managed = (int) drv_int(c, "managed", 0);
 		MPT_STRUCT(type_traits) *t = (MPT_STRUCT(type_traits) *) malloc(sizeof(*t));
 		const MPT_STRUCT(type_traits) init = { managed ? g_init : 0, managed ? g_fini : 0, size };
+		int r;
 		memcpy(t, &init, sizeof(*t));
-		answer_id(c, mpt_type_add(t));
+		arm(c);
+		r = mpt_type_add(t);
+		disarm(c);
+		answer_id(c, r);
 	}
 	else if (!strcmp(a, "addiface") || !strcmp(a, "addmeta")) {
 		const char *name = name_arg(c, "name");
 		const MPT_STRUCT(named_traits) *e;
+		arm(c);
 		e = (a[3] == 'i') ? mpt_type_interface_add(*name ? name : 0) : mpt_type_metatype_add(*name ? name : 0);
+		disarm(c);
 		answer_named(c, e);
 	}
 	else if (!strcmp(a, "byid")) {
@@ -226,6 +262,29 @@ static void drv_step(struct cmd *c)
 		j_int("count", (long long) n);
 		drv_end();
 		free(hit);
+	}
+	else if (!strcmp(a, "fmtsweep")) {
+		/* transport format codes: native type of all 256 code bytes, code and carried element size of the listed type ids */
+		size_t nt = 0, i;
+		long long *types = drv_ints(c, "types", &nt);
+		long long ids[256], *codes = (long long *) calloc(nt + 1, sizeof(*codes)), *sizes = (long long *) calloc(nt + 1, sizeof(*sizes));
+		for (i = 0; i < 256; i++) {
+			int t = mpt_msgvalfmt_typeid((uint8_t) i);
+			ids[i] = t < 0 ? -1 : t;
+		}
+		for (i = 0; i < nt; i++) {
+			int code = mpt_msgvalfmt_code((int) types[i]);
+			codes[i] = code < 0 ? -1 : code;
+			sizes[i] = code < 0 ? 0 : (long long) mpt_msgvalfmt_size((uint8_t) code);
+		}
+		drv_begin(c);
+		j_int("nat", MPT_MESGVAL(ByteOrderNative));
+		j_ints("ids", ids, 256);
+		j_ints("codes", codes, nt);
+		j_ints("sizes", sizes, nt);
+		drv_dbg();
+		drv_end();
+		free(codes); free(sizes); free(types);
 	}
 	else if (!strcmp(a, "byname")) {
 		const char *text = name_arg(c, "text");
